@@ -97,14 +97,23 @@ def check_flow(chk, c, tmp, drv):
         return
     r = np.random.default_rng(c["seed"])
     lo, hi = np.asarray(c["lo"]), np.asarray(c["hi"])
-    data = lo + (0.5 + 0.25 * np.tanh(r.normal(0, 1, (150, c["d"])))) * (hi - lo)
+    fin = np.isfinite(lo) & np.isfinite(hi)
+    wd = np.where(fin, hi - lo, 1.0)
+    anchor = np.where(np.isfinite(lo), lo, hi)
+
+    def spread(s_):
+        # finite ranges: inside the range; one-sided ranges: next to the finite end (a fitted proposal then has mass beyond it)
+        z_ = r.normal(0, 1, (150, c["d"]))
+        return np.where(fin, np.where(np.isfinite(lo), lo, 0.0) + (0.5 + s_ * np.tanh(z_)) * wd, anchor + np.where(np.isfinite(lo), 1, -1) * 1.2 * s_ * np.abs(z_))
+
+    data = spread(0.25)
     stages = [("untrained", None)]
     for stage in ("untrained", "trained", "reloaded"):
         try:
             if stage == "untrained":
                 # the affine stage needs a fit before it can be used: fit the data transform only, on data with another spread
                 # than the training data used later (a proposal object is refitted)
-                d0 = lo + (0.5 + 0.08 * np.tanh(r.normal(0, 1, (150, c["d"])))) * (hi - lo)
+                d0 = spread(0.08)
                 f.fit_data_transform(xp.asarray(d0, dtype=f.dtype) if c["backend"] == "flowjax" else torch.as_tensor(d0, dtype=f.dtype))
             elif stage == "trained":
                 if c["backend"] == "zuko":
@@ -148,11 +157,14 @@ def check_stage(chk, c, f, xp, stage, data, drv, tol, sig, case):
         x, lq = f.sample_and_log_prob(64)
     x, lq = ns.to_np(x).reshape(-1, d), ns.to_np(lq).reshape(-1)
     lpx = lp(f, x)
+    fin = np.isfinite(lo) & np.isfinite(hi)       # one-sided and whole-line ranges are not mapped to the real line: no claim about their draws
     if c["bounded"] != "off":
-        u = (x - lo) / (hi - lo)
+        u = (x[:, fin] - lo[fin]) / (hi[fin] - lo[fin])
         interior = np.all((u > 4 * EPS) & (u < 1 - 4 * EPS), axis=1)      # outside the documented clipping margin
-        if np.any(x < lo) or np.any(x > hi):
-            chk.fail("draws respect the declared finite bounds", case, f"{int(np.sum((x < lo) | (x > hi)))} coordinates outside the bounds ({stage})", {**sig, "clause": "bounds"})
+        if np.any(x[:, fin] < lo[fin]) or np.any(x[:, fin] > hi[fin]):
+            chk.fail("draws respect the declared finite bounds", case, f"{int(np.sum((x[:, fin] < lo[fin]) | (x[:, fin] > hi[fin])))} coordinates outside the bounds ({stage})", {**sig, "clause": "bounds"})
+        if not fin.all():
+            chk.count("draws_beyond_the_finite_end_of_a_one_sided_range", int(np.sum((x[:, ~fin] < lo[~fin]) | (x[:, ~fin] > hi[~fin]))))
     else:
         interior = np.ones(len(x), bool)
     chk.count("draws", len(x))
@@ -250,9 +262,17 @@ def run(chk: core.Check):
     try:
         n = 8 if quick else 48
         # always-run regime cases: an unbounded parameter whose natural scale is tiny (amplitude ~ 1e-7 in float32) or huge
+        INF = math.inf
         corpus = [{"backend": "zuko", "bounded": "off", "dtype": "float32", "d": 2, "lo": [0.0, -2.0], "hi": [2e-6, 3.0], "affine": True, "seed": 5, "train": True},
+                  # an interval that is narrow relative to its offset (a GPS-time-like parameter) next to an ordinary one
+                  {"backend": "zuko", "bounded": "logit", "dtype": "float64", "d": 2, "lo": [1000.0, -1.0], "hi": [1000.5, 3.0], "affine": True, "seed": 7, "train": True},
+                  # a one-sided range (a scale parameter on [0, inf)) next to a bounded parameter: the one-sided parameter is not mapped, draws
+                  # beyond its finite end are returned as drawn, with the density of the point that is returned
+                  {"backend": "zuko", "bounded": "probit", "dtype": "float64", "d": 2, "lo": [0.0, -2.0], "hi": [INF, 3.0], "affine": True, "seed": 8, "train": True},
+                  {"backend": "flowjax", "bounded": "logit", "dtype": "float64", "d": 2, "lo": [-INF, 10.0], "hi": [4.0, 10.5], "affine": False, "seed": 9, "train": True},
+                  {"backend": "flowjax", "bounded": "probit", "dtype": "float64", "d": 2, "lo": [-1.0, 5000.0], "hi": [3.0, 5001.0], "affine": False, "seed": 10, "train": True},
                   {"backend": "zuko", "bounded": "off", "dtype": "float64", "d": 1, "lo": [0.0], "hi": [1e-14], "affine": True, "seed": 6, "train": True}]
-        for c in corpus[: 1 if quick else 2]:
+        for c in (corpus[:5] if quick else corpus):
             check_flow(chk, c, tmp, drv)
         for i in range(n):
             check_flow(chk, gen_case(r, i), tmp, drv)
